@@ -162,6 +162,9 @@ def parse_variant(text, via_path, bom, want=None):
         return harness.Outcome(None, e, env.LOG.drain())
 
 
+_BASE: dict = {}
+
+
 def render(sections, newline, final=True):
     return gen.render_sections(sections, newline, final)
 
@@ -176,6 +179,11 @@ def judge_rendering(rec, sections, truth, newline, via_path, bom, baseline, ligh
         # unknown sections must still be reported
         want = harness.pairs(mcheck.all_present({"truth": truth}))
         rec.cls("rendering_parsed_with_selection_of_all_tracks")
+    elif not light and len(text) % 4 == 3 and truth.get("tracks"):
+        # ... and with a selection naming exactly the tracks that are there (nothing absent to wait for): unknown sections - also ones
+        # standing after the last selected track - are still reported
+        want = harness.pairs([k.split("/") for k in sorted(truth["tracks"])])
+        rec.cls("rendering_parsed_with_selection_of_exactly_the_present_tracks")
     out = parse_variant(text, via_path, bom, want)
     rec.ev()
     if not out.ok:
@@ -198,6 +206,21 @@ def judge_rendering(rec, sections, truth, newline, via_path, bom, baseline, ligh
                       f"observed {ob['metadata'].get('name')!r:.80}", case, "C06:name-mangled")
         ok = False
     dg = observe.digest(ob)
+    if baseline is None:
+        _BASE["chart"] = out.chart
+    elif _BASE.get("chart") is not None:
+        # "independent of section order, line endings, BOM and unrecognised sections" for the chart as a value too: == with the
+        # chart of the first rendering (both directions)
+        rec.ev()
+        try:
+            same = bool(out.chart == _BASE["chart"]) and bool(_BASE["chart"] == out.chart) and not (out.chart != _BASE["chart"])
+        except Exception as e:  # noqa
+            same = False
+        if not same:
+            rec.violation("rendering-dependence", f"the chart parsed from this rendering (newline={newline!r}, by_path={via_path}, bom={bom}, section order "
+                          f"{[n for n, _ in sections]}) does not compare equal (==) to the chart parsed from the first rendering of the same spec", case,
+                          "rendering-dependence:==")
+            ok = False
     if baseline is not None:
         rec.ev()
         if dg != baseline:
